@@ -199,7 +199,42 @@ class Gen:
                 self.features.add("imported")
                 call = r.choice(["answer()", "make_pair(1)", "pick(cb)", "Box().get()"])
                 self.emit(ind, f"reveal_type(c10lib.{call})")
-        elif k == 10 and r.random() < 0.3:
+        elif k == 10 and r.random() < 0.35:
+            # set displays: the runtime set has no order, the text derived from it must
+            self.features.add("setlit")
+            v = r.choice(vars_)
+            elems = r.sample(["'a'", "'b'", "'cc'", "'dd'", "'e'", "None", "b'x'", "b'yy'", "1", "2.5", "'zeta'", "'omega'", "(1, 'a')", "True"], r.randrange(2, 7))
+            disp = "{" + ", ".join(elems) + "}"
+            form = r.randrange(6)
+            if form == 0:
+                self.emit(ind, f"if {v} in {disp}:")
+                self.emit(ind + 1, f"reveal_type({v})")
+            elif form == 1:
+                t = r.choice(NAMES[:10])
+                self.emit(ind, f"for {t} in {disp}:")
+                self.emit(ind + 1, f"reveal_type({t})")
+                if t not in vars_:
+                    vars_.append(t)
+            elif form == 2:
+                self.emit(ind, f"reveal_type({disp})")
+            elif form == 3:
+                self.emit(ind, f"reveal_type(frozenset({disp}))")
+            elif form == 4:
+                self.emit(ind, f"if {v} not in {disp}: reveal_type({v})")
+            else:
+                self.emit(ind, f"helper({disp}, zz={disp})")
+        elif k == 10 and r.random() < 0.45:
+            # a plain string that looks like an f-string: every name is looked up (and marked
+            # as used) until the first unknown one
+            self.features.add("missing_f")
+            names = r.sample(vars_, min(len(vars_), r.randrange(1, 4))) + r.sample(["zzz_undefined", "qq_undefined"], r.randrange(0, 2))
+            r.shuffle(names)
+            fresh = r.choice(NAMES[:10]) + "_u"
+            self.emit(ind, f"{fresh} = {r.choice(LITS[:8])}")
+            names.insert(r.randrange(0, len(names) + 1), fresh)
+            text = " ".join("{" + n + "}" for n in names)
+            self.emit(ind, f"print({text!r})")
+        elif k == 10 and r.random() < 0.5:
             self.features.add("format")
             keys = r.sample(NAMES, r.randrange(2, 6))
             given = r.sample(keys, r.randrange(0, len(keys)))
@@ -443,7 +478,11 @@ def gen_program(rng: random.Random):
     for _ in range(50):
         src, feats = g.program()
         try:
-            code = compile(src, "<gen>", "exec")
+            import warnings
+
+            with warnings.catch_warnings():
+                warnings.simplefilter("ignore")
+                code = compile(src, "<gen>", "exec")
         except SyntaxError:
             continue
         try:
